@@ -38,30 +38,33 @@ class C16(Prop):
     CORR_MODULE = "Recovery.Corr"
     LEVEL = "proof"
     LEVEL_TEXT = (
-        "Theorems (Coq, closed under the global context) over a model of rollback recovery on an arbitrary unfolded job "
-        "DAG with deterministic job functions: SAFETY at full generality (for every well-formed DAG and every history of "
-        "successful executions and data losses -- any failures, phases, counts, rollback sets, orders -- every existing "
-        "output equals the failure-free output, C16_same_outputs); the failure-free run is total and a fixpoint of the job "
-        "functions; LIVENESS partially: from any reachable state a rollback re-executing the producers of unavailable "
-        "inputs yields the failure-free output and only adds values (C16_rollback_completes_partial); with the retry budget "
-        "(C16_completes_partial): for every history of failures with closed rollback sets in which each job's first execution "
-        "plus the re-executions demanded of it -- by its own failures and by its consumers' -- stay within the limit, no "
-        "rollback is refused, versions are exactly 1 + demand, and finishing without further failures yields the failure-free "
-        "outputs; that budget is tight (C16_budget_is_tight) and a granted closed rollback restores the failed job "
-        "(C16_rollback_recovers); and a refutation of "
-        "the text's completion clause as stated (C16_completes_refuted: the retry counter counts re-executions, so jobs "
-        "that each fail fewer times than the limit can still exhaust it). Tied to /repo by running real workflows "
-        "(pipelines 1..5, loops 0..6 iterations, scatter/gather width 1..12 depth 1..2, diamonds 2..4; primitive and file data; faults in "
-        "schedule/transfer/execute, soft and fail-stop, counts 1..3, several jobs) with the real executor and rollback "
-        "manager, replaying the recorded history (completed executions, wipes) in the model and comparing the delivered "
-        "output with the model's store and with the failure-free denotation; oracle from the property text on every run.")
+        "Theorems (Coq, closed under the global context) over a job-DAG model of rollback recovery (one value per job, "
+        "deterministic job functions, histories of executions and data losses). C16_same_outputs_partial: in that model every "
+        "existing output equals the failure-free output for every DAG and history -- true by construction of the model (stale, "
+        "duplicated or wrongly tagged tokens and _inject_tokens / build_graph / restore / InterWorkflowPort are not "
+        "expressible in it), so SAFETY ON THE CODE rests on the per-run replay: the check replays the history the real engine "
+        "produced (Recovery/Corr.v run_checked: every completed execution must be enabled in the model) and compares the "
+        "delivered output with the model's store and the failure-free denotation, plus the oracle from the property text. "
+        "The failure-free run is total and a fixpoint of the job functions. LIVENESS partially: the canonical rollback from "
+        "any reachable state yields the failure-free output and only adds values (C16_rollback_completes_partial); with the "
+        "retry budget (C16_completes_partial): for every history of failures whose rollback sets are closed and in which "
+        "each job's first execution plus the re-executions demanded of it -- by its own failures and by its consumers' -- "
+        "stay within the limit, no rollback is refused, every rollback restores its failed job's output, versions are exactly "
+        "1 + demand and the store agrees with the failure-free run; the budget is tight (C16_budget_is_tight), the budget "
+        "counter is Retry/Model.v's (C16_budget_matches_retry_counter); C16_completes_refuted refutes the text's completion "
+        "clause as stated. Engine runs: pipelines 1..5, loops 0..6 (and 11..12) iterations, scatter/gather width 1..12 depth "
+        "1..2, diamonds 2..4; primitive, file and two-path file data; schedule/transfer/execute faults, soft, fail-stop and "
+        "partial loss, counts 1..3, several jobs.")
     LEVEL_NOTE = (
-        "Partial: liveness is proved for the canonical rollback without the retry budget and without concurrency of "
-        "recoveries; data "
-        "transfer, Step.restore and the provenance-graph search (C18) are abstracted (a rollback is any set of "
-        "re-executions). Equality of outputs on the real engine is established per run. Trusted: Coq kernel + vm_compute, "
-        "Recovery/Model.v, the harness (fault-injecting Step/Command subclasses, recording shims), asyncio, SQLite, local "
-        "filesystem. No axioms.")
+        "Partial. (1) The safety theorem is about the model only (see level text); on the code it is differential replay + "
+        "oracle per run. (2) Liveness: closedness of the engine's real rollback sets is C18; concurrency of recoveries is not "
+        "modelled (C19); Recovery/Budget.v has no correspondence leg of its own -- its counter semantics is proved equal to "
+        "Retry/Model.v's synchronize on duplicate-free non-recovering request lists (granted atomically vs. incrementing as it "
+        "goes differ only after a refusal, when the run is aborted), and Retry/Model.v is tied to the code by C17's "
+        "correspondence; the oracle's over/within budget label is computed by a Python re-implementation of the canonical "
+        "demand (predict_demand), not by the Coq definition. (3) Data transfer, Step.restore and the provenance-graph search "
+        "are abstracted. Trusted: Coq kernel + vm_compute, Recovery/Model.v, the harness (fault-injecting Step/Command "
+        "subclasses, recording shims), asyncio, SQLite, local filesystem. No axioms.")
     TECHNIQUE = ("Coq proof (store invariant 'agrees with the failure-free fixpoint' over all histories; strong induction "
                  "for the rollback) + vm_compute replay of real engine histories in the model")
     RULE = ("shapes: pipeline n in 1..5, loop (0..6 iterations, counter + body job per iteration, pre/post 0..1), scatter (pre 0..1, "
